@@ -392,6 +392,9 @@ func (r *c18Run) exec(op c18Op) {
 		err := ch.send(&erc20types.MsgUpdateParams{Authority: c18Gov, Params: erc20types.NewParams(op.A%4 != 3, op.B%2 == 0)})
 		r.count(op, err)
 	default:
+		if r.execGuard(op) {
+			return
+		}
 		panic("c18: unknown op kind " + op.Kind)
 	}
 }
@@ -1115,6 +1118,9 @@ func runC18(e *Env) {
 			}
 			cases = append(cases, k)
 		}
+		if e.Tier != "search" {
+			cases = append(cases, e.c18GuardCases()...) // the known non-importable state class, reported on every run
+		}
 	}
 	for c, k := range cases {
 		if k.Epp <= 0 {
@@ -1236,6 +1242,7 @@ func runC18(e *Env) {
 			e.Stats.Count(fmt.Sprintf("epoch-%s-number:%d", x.Identifier, c18Bucket(int(x.CurrentEpoch))))
 		}
 		e.Stats.Count(fmt.Sprintf("imported:%v", imported))
+		r.guardReport(c, k, valid[3], imported, failure)
 		e.Stats.Sample(k)
 	}
 }
